@@ -199,3 +199,45 @@ func ZZ_C05_DeleteVsReset() {
 	zzAccounted(s, "delete-vs-reset")
 	zzViews(s, "delete-vs-reset")
 }
+
+// ZZ_C05_UpdateVsEvict: an overwrite of a key races the eviction of its entry. Whichever way it goes, the value
+// the listener is given is the value the entry held when it left the cache: the overwriting value is either
+// still resident or was notified itself; it never vanishes behind a notification that carries the older value.
+func ZZ_C05_UpdateVsEvict() {
+	var notes []zzNote
+	s := zzThreadedStore(1, &notes)
+	s.Set(1, 101, 1, 0)
+	s.Wait()
+	vfSetPreemptions(vfConfig("PRE", 1))
+	done := make(chan int, 2)
+	var ok bool
+	go func() { ok = s.Set(1, 102, 1, 0); done <- 1 }()
+	go func() { s.Set(2, 201, 1, 0); done <- 1 }()
+	<-done
+	<-done
+	vfSetPreemptions(0)
+	s.Wait()
+	vfReach("drained")
+	vfAssert("overwrite-accepted", ok)
+	e1, res1 := s.shards[zzIndex(s, 1)].hashmap[1]
+	new1, old1 := 0, 0
+	for _, n := range notes {
+		if n.key == 1 && n.val == 102 {
+			new1++
+		}
+		if n.key == 1 && n.val == 101 {
+			old1++
+		}
+	}
+	if res1 {
+		vfAssert("resident-holds-the-overwriting-value", e1.value == 102 && new1 == 0)
+	} else {
+		vfAssert("overwriting-value-notified-when-it-left", new1 == 1)
+	}
+	// the overwritten value is reported at most once (only when the entry left before the overwrite arrived)
+	vfAssert("overwritten-value-at-most-once", old1 <= 1)
+	_, res2 := s.shards[zzIndex(s, 2)].hashmap[2]
+	n2, _ := zzCount(notes, 2)
+	vfAssert("second-entry-resident-xor-notified-once", (res2 && n2 == 0) || (!res2 && n2 == 1))
+	zzAccounted(s, "update-vs-evict")
+}
